@@ -35,6 +35,19 @@ def reversal_block(fi, obj):
     return None
 
 
+def alternative_coordinates(repo, ci):
+    """pairs (a, b) of attributes whose setters clear each other (self._b = None in the setter of a): two
+    representations of one coordinate, of which only one is stored"""
+    out = set()
+    for c in repo.mro(ci):
+        for name, st in c.setters.items():
+            for t, v, s_ in stores(st.node):
+                if isinstance(t, ast.Attribute) and isinstance(v, ast.Constant) and v.value is None and t.attr.lstrip('_') != name and t.attr.startswith('_'):
+                    # only inside the "value is not None" arm
+                    out.add((name, t.attr.lstrip('_')))
+    return {(a, b) for (a, b) in out if (b, a) in out}
+
+
 def check_reversal(ctx, rule, fi, obj, axes, spectral_attrs):
     blk = reversal_block(fi, obj)
     if blk is None:
@@ -67,6 +80,11 @@ def check_reversal(ctx, rule, fi, obj, axes, spectral_attrs):
                 continue
             pos = reversal_position(v)
             seen[attr] = (pos, st, v)
+    alts = alternative_coordinates(ctx.repo, fi.cls) if fi.cls is not None else set()
+    for a_, b_ in sorted(alts):
+        if a_ < b_ and a_ in seen and b_ in seen:
+            ctx.violation(rule if rule == 'PERM-4' else 'AXIS', 'reversal of %s and %s' % (a_, b_), where(fi, seen[b_][1]),
+                          '%s and %s are two representations of one stored coordinate (each setter clears the other): reversing both flips the spectral axis twice while the values are flipped once' % (a_, b_), 'double-reversal')
     for attr in spectral_attrs:
         inst = 'reversal of %s' % attr
         ax = axes.get(attr)
